@@ -270,6 +270,8 @@ def run(ctx, rep):
     # "a timestamp read from any archive is reported unchanged": both parsers hand (date, time) to from_msdos in that order
     from rules.C01 import msdos_arg_order
     msdos_arg_order(facts, rep, "C18-ARGS")
+    from rules.C14 import meta_rules
+    meta_rules(facts, rep)             # reported as C18/C14-META: a raw copy re-writes the source's DOS words whatever they are (no validity filter)
     panic_rule(ctx, rep, "C18-PANIC", facts, is_time_root, void_rules=void)
     rep.floor("C18-PANIC", 10)
     rep.floor("C18-BITS", 10)
